@@ -628,6 +628,12 @@ def execute(rec):
     if rec['driver'] == 'law':
         from . import c01_law
         return c01_law.exec_law(rec)
+    if rec['driver'] == 'list':
+        from . import c01_extra
+        return c01_extra.exec_list(rec)
+    if rec['driver'] == 'normal':
+        from . import c01_extra
+        return c01_extra.exec_normal(rec)
     raise MachineryError(f'unknown driver {rec["driver"]}')
 
 
@@ -672,7 +678,18 @@ def generate(ctx):
     rng = np.random.default_rng(ctx.seed + 102)
     for k in range(200 if thorough else 30):
         out.append((f'C01-chk-{k}', gen_chk(rng), {'tier': 'chk'}))
-    from . import c01_law
+    from . import c01_law, c01_extra
+    for off, (gen, n, nm) in enumerate(((c01_extra.gen_list, 1500 if thorough else 70, 'list'),
+                                        (c01_extra.gen_normal, 1500 if thorough else 70, 'normal'))):
+        rng = np.random.default_rng(ctx.seed + 104 + off)
+        k = tries = 0
+        while k < n and tries < 5 * n:
+            tries += 1
+            g = gen(rng)
+            if g is None:
+                continue
+            out.append((f'C01-{nm}-{k}', g[0], g[1]))
+            k += 1
     out += c01_law.generate(ctx)
     return out
 
